@@ -30,13 +30,16 @@ UnitPairs == {<<u, w>> : u \in {"m", "c:m", "k:m"}, w \in {"m", "c:m", "k:m"}}
              \cup {<<u, w>> : u \in {"g", "k:g"}, w \in {"g", "k:g"}}
 DummyM == [v |-> ROne, e |-> None]
 
-Scen(kind, op, side, a, b, p, ua, ub) ==
-  [kind |-> kind, op |-> op, side |-> side, a |-> a, b |-> b, p |-> p, ua |-> ua, ub |-> ub]
+\* num: how a plain number is written ("py": Python number / list, "np": numpy.float64 / ndarray, "-": none)
+ScenN(kind, op, side, num, a, b, p, ua, ub) ==
+  [kind |-> kind, op |-> op, side |-> side, num |-> num, a |-> a, b |-> b, p |-> p, ua |-> ua, ub |-> ub]
+Scen(kind, op, side, a, b, p, ua, ub) == ScenN(kind, op, side, "-", a, b, p, ua, ub)
 
 Expand(a) ==
   {Scen("op", op, "mm", a, b, ROne, "-", "-") : op \in BinOps2, b \in Mags}
-  \cup {Scen("op", op, "mn", a, b, ROne, "-", "-") : op \in BinOps2, b \in {m \in Mags : IsNone(m.e)}}
-  \cup (IF IsNone(a.e) THEN {Scen("op", op, "nm", a, b, ROne, "-", "-") : op \in BinOps2, b \in Mags} ELSE {})
+  \cup {ScenN("op", op, "mn", num, a, b, ROne, "-", "-") : op \in BinOps2, b \in {m \in Mags : IsNone(m.e)}, num \in {"py", "np"}}
+  \cup (IF IsNone(a.e) THEN {ScenN("op", op, "nm", num, a, b, ROne, "-", "-") : op \in BinOps2, b \in Mags, num \in {"py", "np"}}
+        ELSE {})
   \cup {Scen("op", op, "self", a, a, ROne, "-", "-") : op \in BinOps2}            \* both operands are the SAME object
   \cup {Scen("op", "neg", "m", a, DummyM, ROne, "-", "-")}
   \cup {Scen("op", "pow", "m", a, DummyM, p, "-", "-") : p \in Ps}
@@ -104,7 +107,7 @@ MachKnown(s) == Exact \/ s.kind = "query" \/ (s.kind \in {"conv", "qsum"} /\ ~Sc
 
 Record(s) ==
   LET c == Class(s) IN
-  [id |-> idx, kind |-> s.kind, op |-> s.op, side |-> s.side, a |-> s.a, b |-> s.b, p |-> s.p, ua |-> s.ua, ub |-> s.ub,
+  [id |-> idx, kind |-> s.kind, op |-> s.op, side |-> s.side, num |-> s.num, a |-> s.a, b |-> s.b, p |-> s.p, ua |-> s.ua, ub |-> s.ub,
    cls |-> c, obs |-> IF c = "ok" THEN Obs(s) ELSE <<>>,
    mach |-> IF c = "ok" /\ MachKnown(s) THEN Mach(s) ELSE None,
    machknown |-> c = "ok" /\ MachKnown(s),
